@@ -13,7 +13,7 @@ use oracle::tables;
 use serde_json::json;
 
 pub const ID: &str = "C06";
-pub const FAMS: [&str; 4] = ["spare-bits", "residues", "class-edge", "every-length"];
+pub const FAMS: [&str; 6] = ["spare-bits", "residues", "class-edge", "every-length", "real-world-prefixes", "crafted"];
 
 fn spare(v: usize, level: usize, mode: usize, len: usize) -> isize {
     8 * tables::layout(v, level).data_codewords as isize - (4 + tables::cci_bits(v, mode) + tables::payload_bits(mode, len)) as isize
@@ -79,6 +79,30 @@ pub fn jobs(ctx: &Ctx) -> Vec<Job> {
             }
         }
     }
+    // dictionary of real-world prefixes / magic byte sequences, alone and with tails (automatic version;
+    // the mode is forced to the payload's own class or to Byte)
+    for (i, (class, payload)) in crate::job::prefix_sweep(ctx.seed).into_iter().enumerate() {
+        k += 1;
+        for mode in [class, 2] {
+            if mode == 2 && class == 2 && i % 2 == 1 {
+                continue;
+            }
+            jobs.push(Job { fam: FAMS[4], class, mode: Some(mode), level: Some((i + mode) % 4), version: None, mask: rotate_mask(k), len: payload.len(), payload: Some(payload.clone()), seed: mix(ctx.seed, k as u64), ..Default::default() });
+        }
+    }
+    // crafted byte payloads: per-block codeword shapes and matrix targets (craft.rs)
+    for v in ctx.tier.pick(vec![1usize, 3, 6, 9, 10, 13, 20, 26, 27, 31, 40], (1..=40).collect()) {
+        for level in 0..4usize {
+            for sh in 0..crate::craft::CW_SHAPE_COUNT {
+                k += 1;
+                jobs.push(Job::crafted(FAMS[5], crate::job::CRAFT_SHAPE, sh, v, level, rotate_mask(k), mix(ctx.seed, k as u64)));
+            }
+            for t in [0usize, 3, 9, 16, 17, 18, 22] {
+                k += 1;
+                jobs.push(Job::crafted(FAMS[5], crate::job::CRAFT_TARGET, t, v, level, rotate_mask(k), mix(ctx.seed, k as u64)));
+            }
+        }
+    }
     jobs
 }
 
@@ -117,6 +141,11 @@ pub fn observe(ctx: &Ctx, st: &mut Stats, job: &Job) {
         flag(st, ID, v, job, second());
         return;
     }
+    if job.fam == FAMS[4] {
+        st.count("real_world_prefix_payloads", 1);
+    } else if job.fam == FAMS[5] {
+        st.count("crafted_payloads", 1);
+    }
     let sp = spare(exp.version, exp.level, exp.mode, cfg.input.len());
     st.count("data_codewords_compared", ro.layout.data_codewords as u64);
     st.count("data_bits_compared", 8 * ro.layout.data_codewords as u64);
@@ -137,7 +166,7 @@ pub fn run(ctx: &Ctx) -> Report {
     let st = pool::run(&jobs, ctx.remaining(), |st, job, _| observe(ctx, st, job));
     let mut rep = Report::new(
         st,
-        "jobs = every (version, level, mode) cell x {all lengths leaving 0..12 spare bits, lengths 0..5 and three mid lengths (all residues mod 3 / mod 2)}, 20 extra random lengths per cell at the count-width class edges (v9/10/26/27) (thorough: every length for v1-10, 26-28, 39-40, random elsewhere); the data codewords recovered from the module values (unmask, zig-zag, de-interleave; no lenient parsing) are compared bit for bit with the oracle's strict ISO 7.4 encoder (mode indicator, count width, group packing, terminator min(4,rest), zero bits to the byte boundary, 0xEC/0x11 pads to capacity); distinct key = (options, len, payload hash); every case non-trivial (even the empty segment exercises terminator and pads)",
+        "jobs = every (version, level, mode) cell x {all lengths leaving 0..12 spare bits, lengths 0..5 and three mid lengths (all residues mod 3 / mod 2)}, 20 extra random lengths per cell at the count-width class edges (v9/10/26/27) (thorough: every length for v1-10, 26-28, 39-40, random elsewhere), 11 payload generators rotating, + every entry of the dictionary of real-world prefixes and magic byte sequences (both URL-scheme cases, byte order marks, GS1/AIM escapes, control bytes, multi-byte text) alone and with tails in its own mode and in Byte mode + crafted byte payloads (blocks of padding pattern / zeros / identical blocks; data area equal to mask patterns / uniform); the data codewords recovered from the module values (unmask, zig-zag, de-interleave; no lenient parsing) are compared bit for bit with the oracle's strict ISO 7.4 encoder (mode indicator, count width, group packing, terminator min(4,rest), zero bits to the byte boundary, 0xEC/0x11 pads to capacity); distinct key = (options, len, payload hash); every case non-trivial (even the empty segment exercises terminator and pads)",
     );
     rep.expected_sets = vec![("version_level", 160), ("class_mode", 9), ("spare_bits_0_to_12", 13), ("mode_residue", 6), ("pad_parity", 3)];
     rep.required_sets = vec![("version_level", 160), ("class_mode", 9), ("spare_bits_0_to_12", 13), ("mode_residue", 6)];
